@@ -320,12 +320,16 @@ def stmt_of(node):
     return n
 
 
-def conds_sym(chk: Check, ctx: FuncCtx, node, kinds=("if", "prior"), with_kind=False):
-    """Path condition of a node as a list of (term, polarity) [or (term, polarity, kind)]."""
+def conds_sym(chk: Check, ctx: FuncCtx, node, kinds=("if", "prior"), with_kind=False, within=None):
+    """Path condition of a node as a list of (term, polarity) [or (term, polarity, kind)].
+    `within`: only the conditions decided inside that statement (a loop: what one round decides, not what led to the loop)."""
     st = stmt_of(node)
     out = []
+    inside = {id(x) for x in ast.walk(within)} if within is not None else None
     for test, pol, ifstmt, kind in path_conditions(st, ctx.func):
         if kind not in kinds:
+            continue
+        if inside is not None and id(ifstmt) not in inside:
             continue
         at = ctx.cfg.node_of.get(ifstmt)
         t = chk.R.expr(ctx, test, at)
@@ -533,6 +537,56 @@ def loops_of(ctx: FuncCtx, kind=ast.While):
     return [l for l in ctx.loops if isinstance(l, kind)]
 
 
+def _node_reads(node, name) -> bool:
+    a = node.ast
+    if not isinstance(a, ast.AST) or node.kind in ("entry", "exit", "raise"):
+        return False
+    if node.kind == "test":
+        exprs = [a.test] if hasattr(a, "test") else [a]
+    elif node.kind == "for":
+        exprs = [a.iter]
+    elif node.kind == "with":
+        exprs = [i.context_expr for i in getattr(a, "items", [])]
+    elif node.kind == "stmt":
+        exprs = [a]
+    else:
+        exprs = [a]
+    dotted = "." in name
+    for e in exprs:
+        for x in ast.walk(e):
+            if isinstance(x, ast.Name) and x.id == name and isinstance(x.ctx, ast.Load):
+                return True
+            if isinstance(x, ast.AugAssign) and isinstance(x.target, ast.Name) and x.target.id == name:
+                return True
+            if dotted and isinstance(x, ast.Attribute):
+                # a pseudo-variable `self.x`: any mention that is not a plain store is a read (also `self.x += ..`, `self.x.append(..)`)
+                if ast.unparse(x) == name and (isinstance(x.ctx, ast.Load) or any(isinstance(p_, ast.AugAssign) and p_.target is x for p_ in ast.walk(e))):
+                    return True
+    return False
+
+
+def _dead_at_header(cfg, hdr, body, name) -> bool:
+    """The value `name` has at the loop header is never read: on every path from the header a definition comes before any use
+    (inside the loop and behind it)."""
+    seen = set()
+    stack = [s_ for s_, lab in hdr.succ if lab != "exc"]
+    if _node_reads(hdr, name):
+        return False
+    while stack:
+        n = stack.pop()
+        if n in seen or n is hdr:
+            continue
+        seen.add(n)
+        if _node_reads(n, name):
+            return False
+        if any(d.name == name for d in cfg.defs_at.get(n, ())):
+            continue
+        if n.kind in ("exit",):
+            continue
+        stack.extend(s_ for s_, lab in n.succ if lab != "exc")
+    return True
+
+
 def loop_carried(chk: Check, ctx: FuncCtx, loop):
     """Loop-carried variables of `loop`: name -> dict(phi=term at loop head, next=[term at each back edge])."""
     cfg = ctx.cfg
@@ -548,6 +602,8 @@ def loop_carried(chk: Check, ctx: FuncCtx, loop):
         outside = [d for d in defs if d.node not in body]
         if not inside or not outside:
             continue
+        if "." not in name and _dead_at_header(cfg, hdr, body, name):
+            continue  # re-defined in every round before it is read, and not read behind the loop: nothing is carried
         phi = chk.R._name(ctx, name, hdr, {}, False, 0)
         nxt = []
         for src in cfg.back_edge_sources(loop):
@@ -784,6 +840,18 @@ def simulate_assembly(chk: Check, ctx: FuncCtx, loop, base=None, fields=None, ca
         val = v_pre
     if early is not None:
         rounds = Rounds([_Pre(({}, pre_nodes, ("left", None), {}))])
+    elif isinstance(loop, ast.For) and inputs is None:
+        # a for loop: over the elements its iterable evaluates to under the model
+        rounds = simulate_loop(chk, ctx, loop, carried, None, fields=fields, base=base, call_models=call_models)
+        if any(r[2][0] not in ("back", "continue") for r in rounds[:-1]) or (rounds and rounds[-1][2][0] not in ("back", "continue", "break")):
+            return None
+        it_ = R.expr(ctx, loop.iter, hdr0, binds={"__exclude_loop__": loop})
+        try:
+            seq_ = S.ev(it_, v_pre)
+        except S.EvalError:
+            return None
+        if not isinstance(seq_, (tuple, list, range)) or (len(rounds) != len(seq_) and not (rounds and rounds[-1][2][0] == "break")):
+            return None
     else:
         rounds = simulate_loop(chk, ctx, loop, carried, [{}] * max_rounds if inputs is None else inputs, fields=fields, base=base, call_models=call_models)
         if inputs is None:
@@ -939,8 +1007,120 @@ def appends_in(chk: Check, ctx: FuncCtx):
     return out
 
 
+CURRENT = None  # the running Check (set by the engine): lets AST-level helpers consult the reconstruction
+
+
+def _memo_store(func: ast.FunctionDef, n) -> bool:
+    """Is the store `n` (inside `func`) a per-instance memo: `self.A[K] = V` or `self.A = (K, V)` where
+      - A is created in __init__ (and is no class-level name), and only this function mentions it,
+      - V is a function of K and of the object alone: once the components of K are taken as given, V's term mentions no parameter of
+        the function any more,
+      - what the function reads back from A is read under the same key (`self.A[K]`, or `self.A[0] == K` guarding `self.A[1]`)?
+    Such a store can only ever make a later call return what it would have computed anyway."""
+    chk = CURRENT
+    if chk is None or not isinstance(n, ast.Assign) or len(n.targets) != 1:
+        return False
+    try:
+        R = chk.R
+        ctx = R.ctx_of(func)
+        if ctx.ci is None:
+            return False
+        selfname = func.args.args[0].arg
+        tgt = n.targets[0]
+        node = ctx.cfg.node_of.get(n)
+        if isinstance(tgt, ast.Subscript) and isinstance(tgt.value, ast.Attribute) and isinstance(tgt.value.value, ast.Name) and tgt.value.value.id == selfname:
+            attr, K_ast, V_ast, slot = tgt.value.attr, tgt.slice, n.value, False
+        elif isinstance(tgt, ast.Attribute) and isinstance(tgt.value, ast.Name) and tgt.value.id == selfname and isinstance(n.value, ast.Tuple) and len(n.value.elts) == 2:
+            attr, K_ast, V_ast, slot = tgt.attr, n.value.elts[0], n.value.elts[1], True
+        else:
+            return False
+        ci = ctx.ci
+        if attr in ci.class_assigns or attr in ci.annotations and attr not in [a for a in ci.self_assigns]:
+            if attr in ci.class_assigns:
+                return False
+        inits = [(f, st) for f, st, _v in ci.self_assigns.get(attr, ()) if f.name == "__init__"]
+        if not inits:
+            return False
+        # nobody else touches it
+        for m in ci.methods.values():
+            if m is func or m.name == "__init__":
+                continue
+            if any(isinstance(x, ast.Attribute) and x.attr == attr for x in ast.walk(m)):
+                return False
+        K = R.expr(ctx, K_ast, node)
+        V = R.expr(ctx, V_ast, node)
+        comps = list(K[1]) if K[0] == "tuple" else [K]
+        mapping = {c: ("unk", f"key-component-{i}") for i, c in enumerate(comps) if not S.is_const(c)}
+        V2 = S.subst(V, mapping) if mapping else V
+        params = {("p", ctx.qual, i) for i in range(len(func.args.args))}
+        if S.contains(V2, lambda x: x in params):
+            return False
+        if S.opaque_parts(V) and False:
+            return False
+        # reads of the table in this function use the same key
+        for x in ast.walk(func):
+            if isinstance(x, ast.Subscript) and isinstance(x.ctx, ast.Load):
+                b = x.value
+                if isinstance(b, ast.Attribute) and b.attr == attr and isinstance(b.value, ast.Name) and b.value.id == selfname and not slot:
+                    if R.expr(ctx, x.slice, ctx.cfg.node_for(x)) != K:
+                        return False
+        if slot:
+            # single slot: some comparison of the remembered key with K guards the reuse
+            ok = False
+            for x in ast.walk(func):
+                if isinstance(x, ast.Compare) and len(x.ops) == 1 and isinstance(x.ops[0], ast.Eq):
+                    for a_, b_ in ((x.left, x.comparators[0]), (x.comparators[0], x.left)):
+                        try:
+                            if R.expr(ctx, b_, ctx.cfg.node_for(x)) == K and "0" in ast.unparse(a_):
+                                ta = R.expr(ctx, a_, ctx.cfg.node_for(x))
+                                if S.contains(ta, lambda y: isinstance(y, tuple) and y and y[0] == "sub" and y[2] == S.C(0)):
+                                    ok = True
+                        except Exception:
+                            pass
+            if not ok:
+                return False
+        return True
+    except Exception:
+        return False
+
+
+def memo_read_returns(func: ast.FunctionDef):
+    """Return statements of `func` that hand back an entry of a per-instance memo table (see _memo_store): on such a path the
+    function does not compute anything - an earlier call, which did, left exactly this value."""
+    selfname = func.args.args[0].arg if func.args.args else None
+    attrs = set()
+    for n in ast.walk(func):
+        if isinstance(n, ast.Assign) and _memo_store(func, n):
+            t = n.targets[0]
+            attrs.add(t.value.attr if isinstance(t, ast.Subscript) else t.attr)
+    out = []
+    if not attrs:
+        return out
+    for r in ast.walk(func):
+        if isinstance(r, ast.Return) and r.value is not None:
+            v = r.value
+            names = set()
+            if isinstance(v, ast.Name):
+                # a local bound from the table (`cached = self._c; ... return cached[1]` is a Subscript; `v = self._c.get(k)`)
+                continue
+            base = v
+            while isinstance(base, ast.Subscript):
+                base = base.value
+            if isinstance(base, ast.Attribute) and base.attr in attrs and isinstance(base.value, ast.Name) and base.value.id == selfname and isinstance(v, ast.Subscript):
+                out.append(r)
+            elif isinstance(base, ast.Name) and isinstance(v, ast.Subscript):
+                # cached = self.A ; return cached[1]
+                for a_ in ast.walk(func):
+                    if isinstance(a_, ast.Assign) and len(a_.targets) == 1 and isinstance(a_.targets[0], ast.Name) and a_.targets[0].id == base.id \
+                            and isinstance(a_.value, ast.Attribute) and a_.value.attr in attrs:
+                        out.append(r)
+                        break
+    return out
+
+
 def self_stores(func: ast.FunctionDef):
-    """Stores to attributes/subscripts of self (and mutating calls on them) inside a function body."""
+    """Stores to attributes/subscripts of self (and mutating calls on them) inside a function body.  (A per-instance memo keyed
+    by everything its value depends on - see _memo_store - is not reported.)"""
     selfname = func.args.args[0].arg if func.args.args else None
     out = []
     MUT = {"append", "extend", "insert", "pop", "remove", "clear", "update", "setdefault", "sort", "reverse",
@@ -959,6 +1139,8 @@ def self_stores(func: ast.FunctionDef):
                 while isinstance(base, (ast.Attribute, ast.Subscript)):
                     base = base.value
                 if isinstance(tt, (ast.Attribute, ast.Subscript)) and isinstance(base, ast.Name) and base.id == selfname:
+                    if _memo_store(func, n):
+                        continue
                     out.append((n, f"store to {ast.unparse(tt)}"))
         if isinstance(n, ast.Call) and isinstance(n.func, ast.Attribute) and n.func.attr in MUT:
             base = n.func.value
